@@ -57,6 +57,27 @@ type State struct {
 	nonnil  map[string]bool
 	ended   bool
 	callSeq map[string]int
+	iters   map[ssa.Value]iterState // live map iterators (range over a map)
+	trace   []traceEv // ghost call trace of this path: contract calls, slot calls, callbacks, in program order
+}
+
+// iterState: a range-over-map iterator: the map, its key/value types, and the ghost set of keys already delivered.
+type iterState struct {
+	m       string
+	mt      *types.Map
+	visited string // term of sort (Array K Bool)
+	hasSnap string // the map's key set when the iteration started
+	valSnap string
+}
+
+// traceEv is one event of the ghost call trace.
+type traceEv struct {
+	name string // short contract key of the callee, e.g. "(*Parser).NextToken", "baseParseExpression"
+	args []Val
+	vars map[string]Val    // callee parameter name -> argument
+	heap map[string]string // heap versions when the call was made
+	site string
+	res  Val
 }
 
 func (st *State) top() *frame { return st.frames[len(st.frames)-1] }
@@ -78,6 +99,13 @@ func (st *State) clone() *State {
 	n.nonnil = map[string]bool{}
 	for k, v := range st.nonnil {
 		n.nonnil[k] = v
+	}
+	n.trace = append([]traceEv{}, st.trace...)
+	if st.iters != nil {
+		n.iters = map[ssa.Value]iterState{}
+		for k, v := range st.iters {
+			n.iters[k] = v
+		}
 	}
 	n.script = make([]entry, len(st.script))
 	copy(n.script, st.script)
@@ -138,6 +166,7 @@ type Exec struct {
 	prune    bool
 	probes   []probe
 	pruned   int
+	curLoopPos token.Pos
 }
 
 type loopInfo struct {
@@ -249,7 +278,24 @@ func (x *Exec) heapHavocAll(st *State, key string) {
 }
 
 func (x *Exec) envFor(st *State, info *types.Info, pkg string, vars map[string]Val) *Env {
-	return &Env{cx: x.cx, vars: vars, heap: func(key string) string { return x.heapName(st, key) }, info: info, pkg: pkg}
+	e := &Env{cx: x.cx, vars: vars, heap: func(key string) string { return x.heapName(st, key) }, info: info, pkg: pkg}
+	if len(st.iters) == 1 {
+		for _, it := range st.iters {
+			vis := it.visited
+			e.seen = func(k string) string { return fmt.Sprintf("(select %s %s)", vis, k) }
+		}
+	}
+	e.trace = st.trace
+	e.tsnap = func(ev traceEv) *Env {
+		return &Env{cx: x.cx, vars: vars, heap: func(key string) string {
+			if n, ok := ev.heap[key]; ok {
+				return n
+			}
+			x.heapName(st, key)
+			return key + "@0"
+		}}
+	}
+	return e
 }
 
 // entry environment: entry heap versions and entry parameter values
@@ -478,6 +524,9 @@ func (x *Exec) frameCheck(st *State, key, ptr, site string) {
 			alts = append(alts, fmt.Sprintf("(= %s %s)", ptr, m.ptr))
 		}
 	}
+	for _, f := range sortedKeys(st.fresh) {
+		alts = append(alts, fmt.Sprintf("(= %s %s)", ptr, f))
+	}
 	goal := "false"
 	if len(alts) == 1 {
 		goal = alts[0]
@@ -623,6 +672,8 @@ func (x *Exec) loopEdge(st *State, li *loopInfo, from, to *ssa.BasicBlock) bool 
 		return false
 	}
 	// invariant-based
+	x.curLoopPos = x.blockPos(li)
+	defer func() { x.curLoopPos = token.NoPos }()
 	kind := "inv-entry"
 	if back {
 		kind = "inv-step"
@@ -705,14 +756,34 @@ func (x *Exec) invEnv(st *State) *Env {
 			vars[fv.Name()] = x.loadAddr(st, a)
 		}
 	}
-	for al, c := range fr.cells {
-		if isIdent(al.Comment) {
-			if prev, ok := vars[al.Comment]; ok && prev.A == nil {
-				// a param spill cell or a local: prefer the first alloc in block order (collectVars order)
-				_ = prev
-			}
-			vars[al.Comment] = Val{S: c, T: al.Type().(*types.Pointer).Elem()}
+	// several locals may share a name (one `i` per loop): pick, per name, the declaration closest before the current
+	// loop header (x.curLoopPos), else the last one declared
+	best := map[string]*ssa.Alloc{}
+	for al := range fr.cells {
+		if !isIdent(al.Comment) {
+			continue
 		}
+		b := best[al.Comment]
+		if b == nil {
+			best[al.Comment] = al
+			continue
+		}
+		ap, bp := al.Pos(), b.Pos()
+		if x.curLoopPos.IsValid() {
+			aOK, bOK := ap <= x.curLoopPos, bp <= x.curLoopPos
+			if aOK != bOK {
+				if aOK {
+					best[al.Comment] = al
+				}
+				continue
+			}
+		}
+		if ap > bp {
+			best[al.Comment] = al
+		}
+	}
+	for n, al := range best {
+		vars[n] = Val{S: fr.cells[al], T: al.Type().(*types.Pointer).Elem()}
 	}
 	// heap-allocated named locals (escaping variables)
 	for v, r := range fr.regs {
@@ -727,7 +798,22 @@ func (x *Exec) invEnv(st *State) *Env {
 	}
 	e := x.envFor(st, nil, x.con.Pkg, vars)
 	e.old = x.entryEnv(st)
+	e.fresh = x.freshPred(st)
 	return e
+}
+
+// freshPred: "term is an object allocated by this activation" inside the unit.
+func (x *Exec) freshPred(st *State) func(string) string {
+	return func(term string) string {
+		var alts []string
+		for _, f := range sortedKeys(st.fresh) {
+			alts = append(alts, fmt.Sprintf("(= %s %s)", term, f))
+		}
+		if len(alts) == 0 {
+			return "false"
+		}
+		return "(or " + strings.Join(alts, " ") + ")"
+	}
 }
 
 func (x *Exec) clauseTerm(st *State, cl *Clause, env *Env) string {
@@ -774,12 +860,8 @@ func (x *Exec) step(st *State, ins ssa.Instruction) {
 			return
 		}
 		if fa, ok := ins.Addr.(*ssa.FieldAddr); ok {
-			if k := fieldContracts[fieldName(fa)]; k != "" {
-				if p := x.provenance(fr.fn, ins.Val, 0); p != k {
-					x.check(st, "typecontract:"+fieldName(fa)+"@"+site, "false", site)
-				} else {
-					x.check(st, "typecontract:"+fieldName(fa)+"@"+site, "true", site)
-				}
+			if _, isSlot := fieldSlots[fieldName(fa)]; isSlot {
+				x.slotStoreCheck(st, fieldName(fa), fa, ins.Val, site)
 			}
 		}
 		a := x.val(st, ins.Addr)
@@ -952,12 +1034,8 @@ func (x *Exec) step(st *State, ins ssa.Instruction) {
 	case *ssa.MapUpdate:
 		if u, ok := ins.Map.(*ssa.UnOp); ok {
 			if fa, ok := u.X.(*ssa.FieldAddr); ok {
-				if k := fieldContracts[fieldName(fa)+"[]"]; k != "" {
-					if p := x.provenance(fr.fn, ins.Value, 0); p != k {
-						x.check(st, "typecontract:"+fieldName(fa)+"[]@"+site, "false", site)
-					} else {
-						x.check(st, "typecontract:"+fieldName(fa)+"[]@"+site, "true", site)
-					}
+				if _, isSlot := fieldSlots[fieldName(fa)+"[]"]; isSlot {
+					x.slotStoreCheck(st, fieldName(fa)+"[]", fa, ins.Value, site)
 				}
 			}
 		}
@@ -1033,6 +1111,44 @@ func (x *Exec) step(st *State, ins ssa.Instruction) {
 			x.check(st, "safe:assert@"+site, is, site)
 			fr.regs[ins] = x.name(st, "v", v)
 		}
+		next()
+	case *ssa.Range:
+		mt, ok := ins.X.Type().Underlying().(*types.Map)
+		if !ok {
+			panic(unsupported("range over " + ins.X.Type().String() + " (rune iteration over strings is not modelled)"))
+		}
+		mv := x.val(st, ins.X)
+		kv, kh := cx.mapKeys(mt)
+		ks := cx.sortOf(mt.Key())
+		vis := x.declConst(st, "visited", fmt.Sprintf("(Array %s Bool)", ks))
+		x.assume(st, fmt.Sprintf("(= %s ((as const (Array %s Bool)) false))", vis, ks))
+		hs := x.declConst(st, "iterhas", fmt.Sprintf("(Array %s Bool)", ks))
+		x.assume(st, fmt.Sprintf("(= %s (ite (= %s %s) ((as const (Array %s Bool)) false) (select %s %s)))", hs, mv.S, cx.num(0), ks, x.heapName(st, kh), mv.S))
+		vs := x.declConst(st, "itervals", fmt.Sprintf("(Array %s %s)", ks, cx.sortOf(mt.Elem())))
+		x.assume(st, fmt.Sprintf("(= %s (select %s %s))", vs, x.heapName(st, kv), mv.S))
+		if st.iters == nil {
+			st.iters = map[ssa.Value]iterState{}
+		}
+		st.iters[ins] = iterState{m: mv.S, mt: mt, visited: vis, hasSnap: hs, valSnap: vs}
+		fr.regs[ins] = Val{S: "iter", T: ins.Type()}
+		next()
+	case *ssa.Next:
+		it, ok := st.iters[ins.Iter]
+		if !ok || ins.IsString {
+			panic(unsupported("next on an iterator that is not a map iterator"))
+		}
+		ks := cx.sortOf(it.mt.Key())
+		okv := x.declConst(st, "more", "Bool")
+		k := x.declConst(st, "key", ks)
+		x.typeFacts(st, k, it.mt.Key(), 0)
+		nv := x.declConst(st, "visited", fmt.Sprintf("(Array %s Bool)", ks))
+		q := cx.fresh("qk")
+		x.assume(st, fmt.Sprintf("(=> %s (and (select %s %s) (not (select %s %s)) (= %s (store %s %s true))))", okv, it.hasSnap, k, it.visited, k, nv, it.visited, k))
+		x.assume(st, fmt.Sprintf("(=> (not %s) (and (= %s %s) (forall ((%s %s)) (=> (select %s %s) (select %s %s)))))", okv, nv, it.visited, q, ks, it.hasSnap, q, it.visited, q))
+		it.visited = nv
+		st.iters[ins.Iter] = it
+		val := Val{S: fmt.Sprintf("(select %s %s)", it.valSnap, k), T: it.mt.Elem()}
+		fr.regs[ins] = Val{Tuple: []Val{{S: okv, T: types.Typ[types.Bool]}, {S: k, T: it.mt.Key()}, x.name(st, "v", val)}, T: ins.Type()}
 		next()
 	case *ssa.Phi:
 		for i, p := range fr.block.Preds {
@@ -1319,7 +1435,11 @@ func (x *Exec) doReturn(st *State, rs []Val, site string) {
 	}
 	env := x.envFor(st, nil, x.con.Pkg, vars)
 	env.old = x.entryEnv(st)
+	env.fresh = x.freshPred(st)
 	for i, cl := range x.con.Ensures {
+		if cl.Def {
+			continue
+		}
 		lab := cl.Label
 		if lab == "" {
 			lab = fmt.Sprintf("%d", i+1)
@@ -1481,7 +1601,7 @@ func (x *Exec) havocLoop(st *State, li *loopInfo) {
 		case ssa.CallInstruction:
 			cc := ins.Common()
 			if cc.IsInvoke() {
-				x.typeContractMods(cc, keys)
+				x.typeContractMods(f, cc, keys)
 				return
 			}
 			switch callee := cc.Value.(type) {
@@ -1504,7 +1624,7 @@ func (x *Exec) havocLoop(st *State, li *loopInfo) {
 					scanFn(callee)
 				}
 			default:
-				x.typeContractMods(cc, keys)
+				x.typeContractMods(f, cc, keys)
 			}
 		}
 	}
@@ -1525,6 +1645,21 @@ func (x *Exec) havocLoop(st *State, li *loopInfo) {
 	for bi := range li.blocks {
 		for _, ins := range x.fn.Blocks[bi].Instrs {
 			scanInstr(ins, x.fn)
+		}
+	}
+	// map iterators advanced inside the loop: forget which keys were delivered (the invariant says it, via seen())
+	for bi := range li.blocks {
+		for _, ins := range x.fn.Blocks[bi].Instrs {
+			if nx, ok := ins.(*ssa.Next); ok {
+				if it, ok := st.iters[nx.Iter]; ok {
+					ks := cx.sortOf(it.mt.Key())
+					nv := x.declConst(st, "visited", fmt.Sprintf("(Array %s Bool)", ks))
+					q := cx.fresh("qk")
+					x.assume(st, fmt.Sprintf("(forall ((%s %s)) (=> (select %s %s) (select %s %s)))", q, ks, nv, q, it.hasSnap, q))
+					it.visited = nv
+					st.iters[nx.Iter] = it
+				}
+			}
 		}
 	}
 	// apply
